@@ -246,6 +246,7 @@ impl Prop for P {
             rule: "call histories on stream::inflate: (1) exhaustive DFS to depth 3 (quick) / 4 (thorough) over a 64-letter alphabet (input 0/1/2/rest x output 0/1/3/64K x flush None/Sync/Finish/Full) from 13 fixed streams (valid raw/zlib, multi-block, with trailing bytes, truncated mid-stream and in the trailer, corrupt after some output, bad checksum, bad header, 36 KB output from few bytes, empty, distance-before-start), cloning InflateState at each node; (2) random histories of up to 200 calls over generated valid/invalid/truncated inputs with trailing bytes; (3) the two usual driver loops under generated buffer schedules. After every call the protocol relation is evaluated against the ground truth (reference inflater with zeroed-ring semantics). Non-trivial = history of length >= 3 containing a call that returned with window data still pending or a Finish that could not finish; distinct by path / case fingerprint",
             assumptions: &["reference inflater (self-checked) with zero-initialised 32 KiB ring semantics is the ground truth for what inflate() may deliver", "clauses not stated by the property are left open (first-call Finish with a too-small buffer; a non-Finish call after Finish)"],
             dbg: true,
+            simd: false,
             exhaustive: Some("all call sequences of length <= 3 over the 64-letter alphabet from each of the 13 fixed streams"),
         }
     }
